@@ -3,8 +3,10 @@
 //!   cvh <engine> --tier quick|thorough --slice i/n --out <file> [--seed s]
 //!   cvh replay <file>
 
+mod alloc;
 mod crash;
 mod fault;
+mod input;
 mod keys;
 mod model;
 mod ondisk;
@@ -16,6 +18,9 @@ mod shim;
 mod util;
 
 use report::WorkerResult;
+
+#[global_allocator]
+static GLOBAL: alloc::Counting = alloc::Counting;
 use serde_json::Value;
 
 struct Args {
@@ -85,12 +90,19 @@ fn main() {
             util::cleanup_scratch();
             if vs.is_empty() { 0 } else { 1 }
         }
+        "input-child" => {
+            input::child_main(&argv[2..]);
+            util::cleanup_scratch();
+            0
+        }
         engine => {
             let a = parse_args(&argv[2..]);
+            let prop = a.rest.iter().position(|x| x == "--prop").and_then(|i| a.rest.get(i + 1)).cloned().unwrap_or_default();
             let res = match engine {
                 "seq" => seq::run(&a.tier, a.slice, a.seed),
                 "crash" => crash::run(&a.tier, a.slice, a.seed),
                 "fault" => fault::run(&a.tier, a.slice, a.seed),
+                "input" => input::run(&a.tier, a.slice, a.seed, &prop),
                 _ => {
                     eprintln!("unknown engine {engine}");
                     std::process::exit(2);
@@ -110,6 +122,7 @@ pub fn replay(case: &Value) -> Vec<report::Violation> {
         "seq" => seq::replay(case),
         "crash" => crash::replay(case),
         "fault" => fault::replay(case),
+        "input" => input::replay(case),
         e => {
             eprintln!("cannot replay engine {e:?}");
             std::process::exit(2);
